@@ -27,7 +27,7 @@ type Val struct {
 	F  gen.F  `json:"f,omitempty"`
 	S  string `json:"s,omitempty"`
 	B  bool   `json:"b,omitempty"`
-	VO string `json:"vo,omitempty"` // obj: valueOf behaviour: n:<num> | s:<str> | obj | throw | absent | undef | null | b:true
+	VO string `json:"vo,omitempty"` // obj: valueOf behaviour: n:<num> | s:<str> | obj | throw | absent | undef | null | b:true | acc:<one of these> (accessor with a logging getter) | inst:<prim> (returns an object after installing the other method)
 	TS string `json:"ts,omitempty"` // obj: toString behaviour
 	// Go: inject through Otto.Set with this Go kind instead of a literal
 	Go string `json:"go,omitempty"`
@@ -106,6 +106,11 @@ var otherVals = []Val{
 	{K: "obj", VO: "n:NaN", TS: "s:t"},
 	{K: "obj", VO: "n:-0", TS: "s:t"},
 	{K: "obj", VO: "s:", TS: "s:t"},
+	// 8.12.8 looks each method up only when its step is reached
+	{K: "obj", VO: "acc:n:7", TS: "acc:s:str"},
+	{K: "obj", VO: "acc:obj", TS: "acc:s:9"},
+	{K: "obj", VO: "inst:n:24", TS: "obj"},
+	{K: "obj", VO: "obj", TS: "inst:s:7"},
 	{K: "arr", S: ""}, {K: "arr", S: "5"}, {K: "arr", S: "1,2"},
 	{K: "fn"},
 	// objects of the fixed prelude (see Build): operands for which instanceof and in do
@@ -336,6 +341,23 @@ func primNode(spec string) Node {
 func convMethod(tag, name, spec string) (Prop, bool) {
 	if spec == "absent" {
 		return Prop{}, false
+	}
+	other := "toString"
+	if name == "toString" {
+		other = "valueOf"
+	}
+	switch {
+	case strings.HasPrefix(spec, "acc:"):
+		// the method is an accessor property: 8.12.8 reads it ([[Get]]) exactly when the
+		// step that calls it is reached, so the getter's log line fixes when and whether
+		p, _ := convMethod(tag, name, spec[4:])
+		return Getter(name, Log(S(tag+"."+name+" get")), Ret(p.Value)), true
+	case strings.HasPrefix(spec, "inst:"):
+		// returns an object (so 8.12.8 goes on to the other method) after installing that
+		// other method on the receiver; the installed method removes itself again, so every
+		// conversion of the operand starts from the same state
+		inner := FnE("", nil, Log(S(tag+"."+other+"*")), ES(Un("delete", Dot(&This{}, other))), Ret(primNode(spec[5:])))
+		return P(name, FnE("", nil, Log(S(tag+"."+name)), ES(Asg(Dot(&This{}, other), inner)), Ret(ObjL()))), true
 	}
 	body := []Node{Log(S(tag + "." + name))}
 	if spec == "throw" {
